@@ -1863,6 +1863,10 @@ package gmars
 //@   ensures [C05] result != 0 ==> forMu(f, result) < old(forMu(f, forInnerLine))
 // the block header (counter, count, line labels) is not disturbed while the body is collected
 //@   ensures [C08] forBlockSame(f)
+// every body line that starts with a word goes through the label state -- the only place where nested for / rof are
+// counted -- whatever the count of the block; any other line is buffered as it is
+//@   ensures [C08] old(f.nextToken.typ) == tokText ==> result == forInnerLabels && len(f.labelBuf) == 0
+//@   ensures [C08] old(f.nextToken.typ) != tokText ==> result == forInnerEmitConsumeLine
 //@ func forInnerEmitConsumeLine
 //@   panics [C05][C08]
 //@   requires forOK(f)
